@@ -4,6 +4,7 @@
 import BioCantor.Proofs.TblQuals
 import BioCantor.Proofs.TblRows
 import BioCantor.Proofs.TblCDS
+import BioCantor.Proofs.TblGene
 namespace BioCantor.Proofs.Tbl
 open BioCantor BioCantor.Model.Tbl BioCantor.Spec BioCantor.Spec.Tbl
 open BioCantor.Model.Bed (natStr intStr join)
